@@ -1,6 +1,7 @@
 import SnaxVerif.Lemmas.SchedWF
 import SnaxVerif.Lemmas.SchedFromMap
 import SnaxVerif.Lemmas.Fuel
+import SnaxVerif.Lemmas.First
 /-!
 # C03 — scheduling preserves the iteration space
 
@@ -93,6 +94,30 @@ theorem C03_autoflow (sizes : List Nat) (tmpl : Template) (fuel : Nat) (s r : Sc
     have := C03_backtrack matchesQ _ tmpl fuel (canonicalize s) 1 rs (WF_maskSched hwf) hb r hmem
     rw [canonicalize_image_eq s] at this
     exact this
+
+/-- `next(scheduler_backtrack(..))` computed lazily (later candidates are never evaluated, exactly like the Python
+generator): the first yielded schedule is well-formed and visits a permutation of the original tuples. -/
+theorem C03_first (mtch : Template → Schedule → Except Err Bool) (checks : List (Template → Schedule → Bool))
+    (tmpl : Template) (fuel : Nat) (s : Schedule) (k : Nat) (r : Schedule) (hwf : WF s)
+    (h : backtrackFirst mtch checks tmpl fuel s k = .ok (some r)) : WF r ∧ (imageS r).Perm (imageS s) := by
+  apply backtrackFirst_induct (fun _ s' => WF s' ∧ (imageS s').Perm (imageS s))
+    (fun r => WF r ∧ (imageS r).Perm (imageS s)) (fun _ _ hI _ => hI) ?_ fuel s k r ⟨hwf, List.Perm.refl _⟩ h
+  intro k s' s1 cand hI hk hstep
+  obtain ⟨⟨hw1, hp1⟩, hn, hc⟩ := btStep_image hI.1 hk hstep
+  exact ⟨⟨hw1, hp1.trans hI.2⟩, hn, fun c hcand => ⟨(hc c hcand).1, ((hc c hcand).2).trans hI.2⟩⟩
+
+/-- whenever the whole list can be computed, the lazy first result is its head (the two models of the search agree) -/
+theorem first_is_head (mtch : Template → Schedule → Except Err Bool) (checks : List (Template → Schedule → Bool))
+    (tmpl : Template) (fuel : Nat) (s : Schedule) (k : Nat) (rs : List Schedule)
+    (h : backtrack mtch checks tmpl fuel s k = .ok rs) : backtrackFirst mtch checks tmpl fuel s k = .ok rs.head? :=
+  backtrackFirst_eq_head fuel s k rs h
+
+/-- the pass step as it really runs (`autoflowFirst`: canonicalize, lazy `next`) -/
+theorem C03_autoflow_first (sizes : List Nat) (tmpl : Template) (fuel : Nat) (s r : Schedule) (hwf : WF s)
+    (h : autoflowFirst sizes tmpl fuel s = .ok (some r)) : WF r ∧ (imageS r).Perm (imageS s) := by
+  have := C03_first matchesQ _ tmpl fuel (canonicalize s) 1 r (WF_maskSched hwf) h
+  rw [canonicalize_image_eq s] at this
+  exact this
 
 /-! ### the fuel of the model is adequate and irrelevant (the Python recursion has none) -/
 
